@@ -230,6 +230,9 @@ class FunctionValue:
             r = self.ev.run(fn.body, env)
         finally:
             self.ev.depth -= 1
+            for gname in env.get("__globals__", ()):
+                if gname in env:
+                    self.genv[gname] = env[gname]
         if isgen:
             return env["__yields__"]
         return None if r is FELL else r
@@ -439,6 +442,16 @@ class Evaluator:
             return Closure(n, env, self)
         if isinstance(n, (ast.ListComp, ast.GeneratorExp)):
             return self.comp(n, env)
+        if isinstance(n, ast.SetComp):
+            fake = ast.ListComp(elt=n.elt, generators=n.generators)
+            return set(self.comp(fake, env))
+        if isinstance(n, ast.DictComp):
+            fake = ast.ListComp(elt=ast.Tuple(elts=[n.key, n.value], ctx=ast.Load()), generators=n.generators)
+            return {k: v for k, v in self.comp(fake, env)}
+        if isinstance(n, ast.NamedExpr):
+            v = self.eval(n.value, env)
+            self.bind(n.target, v, env)
+            return v
         if isinstance(n, ast.Dict):
             return {self.eval(k, env): self.eval(v, env) for k, v in zip(n.keys, n.values) if k is not None}
         if isinstance(n, ast.JoinedStr):
@@ -920,8 +933,30 @@ class Evaluator:
                 for nm in names:
                     hook(nm, env)
             return
-        elif isinstance(st, (ast.Global, ast.Nonlocal)):
+        elif isinstance(st, ast.Global):
+            env.setdefault("__globals__", set()).update(st.names)
             return
+        elif isinstance(st, ast.Nonlocal):
+            return
+        elif isinstance(st, ast.With):
+            for item in st.items:
+                v = self.eval(item.context_expr, env)
+                if item.optional_vars is not None:
+                    self.bind(item.optional_vars, v, env)
+            self.block(st.body, env)
+        elif isinstance(st, ast.Delete):
+            for t in st.targets:
+                if isinstance(t, ast.Name):
+                    env.pop(t.id, None)
+                elif isinstance(t, ast.Subscript):
+                    base = self.eval(t.value, env)
+                    idx = self.eval(t.slice, env)
+                    try:
+                        del base[idx]
+                    except (KeyError, IndexError, TypeError):
+                        raise Raised("KeyError(del)")
+                else:
+                    raise Undecided("del target")
         elif isinstance(st, ast.FunctionDef):
             env[st.name] = _Closure2(st, self, env)
         elif isinstance(st, ast.Try):
